@@ -214,6 +214,8 @@ pub struct Run<'a> {
     pub lib_err: bool,
     /// op_write is running as the caller's retry of a write that failed with an injected fault
     pub retrying_write: bool,
+    /// C13: set the I/O-error status bit before the read-only session mounts
+    pub ro_set_io_error_bit: bool,
 }
 
 /// a point at which flushing or dropping a handle returned: the file must survive any later power cut
@@ -258,6 +260,7 @@ impl<'a> Run<'a> {
             fault_hold: 0,
             lib_err: false,
             retrying_write: false,
+            ro_set_io_error_bit: false,
             status_at_mount: vol.status0 & 3,
             last_dec: None,
             pattern_salt: 0,
@@ -1269,6 +1272,7 @@ impl<'a> Run<'a> {
             let _ = guard(move || sess.unmount());
         }
         let g = self.geom.clone();
+        let io_err = self.ro_set_io_error_bit;
         self.dev.with(|d| {
             if dirty {
                 let mut b = [0u8; 1];
@@ -1277,6 +1281,11 @@ impl<'a> Run<'a> {
             }
             if fsinfo_unknown && g.width == 32 {
                 d.store.write_at(g.fsinfo_off() + 488, &0xFFFF_FFFFu32.to_le_bytes());
+            }
+            if io_err {
+                let mut b = [0u8; 1];
+                d.store.read_at(g.status_off(), &mut b);
+                d.store.write_at(g.status_off(), &[b[0] | 2]);
             }
             if g.width == 32 {
                 if let Some(h) = hint {
